@@ -188,6 +188,10 @@ def check_instance(inst, soln):
     fstar, xstar, kkt = inst.oracle()
     if kkt > 1e-10:
         return "skip:oracle-kkt-inaccurate", {"kkt": kkt}
+    if soln.x is None or soln.obj is None:
+        # a result without a solution (input-error flag) on a well-posed problem of the property's domain
+        return ("fail:C05:no-solution:flag=%d" % int(soln.flag),
+                {"what": "dfols.solve returned no solution: flag %d, '%s'" % (int(soln.flag), str(soln.msg)[:120]), "fstar": fstar})
     x = np.asarray(soln.x, dtype=float)
     info = {"fstar": fstar, "obj": float(soln.obj), "flag": int(soln.flag), "nf": int(soln.nf), "msg": str(soln.msg)[:80]}
     cls = "%s:%s:npt=%s" % (inst.bkind, "scaled" if inst.scaling else "unscaled", "n+1" if inst.npt == inst.n + 1 else "2n+1")
